@@ -10,6 +10,15 @@ CHECKS = {
  "C10": ("lockset dataflow on SSA (sets of lock configurations) + lock-identity + who-may-call on syscalls",
          "Decides the lock discipline that linearizability of the in-memory disk rests on, for every interleaving: each element read under the mutex (R/W), each element write under W, released on every exit including panics, the mutex is shared (not a per-call copy); the file disk transfers data only by pread/pwrite and has no mutable shared state. Level 'other'.",
          "Linearizability itself and kernel atomicity of pread/pwrite are not decided; sync.RWMutex is trusted.", "DESIGN.md §4 C10"),
+ "C04": ("name-provenance classification at global-reference sinks paired with addDep on all paths (SSA), store/registration order, CFG facts of the emission closure",
+         "Decides, for every input program at once, the translator-side necessary conditions of defined-before-use and unique naming: every emitted same-package global reference is paired with dependency recording on every path, definition names are registered in their final form, the emission closure marks, visits every recorded dependency unconditionally and only then appends, method names come from one function. Level 'other'.",
+         "Coq accepting the file is not decided. One known finding (T__m collision).", "DESIGN.md §4 C04"),
+ "C06": ("map-range idiom classification, global-store scan, goroutine capture analysis, ambient-source who-may-call, with a positive-control package",
+         "Decides the structural causes of non-determinism and cross-package influence for every run and schedule: no order-sensitive map iteration, package-level state immutable after init, workers write only their own slot and follow the WaitGroup protocol, no clock/random/env sources, sort before emit, the command writes a package's file depending only on that package's error. Level 'other'.",
+         "Races inside go/packages/go/types are not decided (documented concurrency-safe).", "DESIGN.md §4 C06"),
+ "C08": ("table extraction from init SSA, callback-shape facts (packages.Visit pre/post), path enumeration of header/footer, provenance of emitted paths",
+         "Decides that the FFI table is consistent with the builtin table, the import-graph walk prunes exactly at FFI packages and refuses two FFIs, header/footer pair up, the Require path and the output file path both derive from pathToCoqPath of the whole import path, ImportDecls are produced exactly for non-builtin imports, printed once sorted and de-duplicated. Level 'other'.",
+         "Coq resolving the Require is not decided.", "DESIGN.md §4 C08"),
  "C11": ("path enumeration with branch facts (error/count result discipline), must-pass-through (fsync), unit-aware open-path rule",
          "Decides for every path through every system call of the file disk that a failure cannot reach a normal return (error tested or returned; pread/pwrite count proven equal to the block size), that Barrier/Close pass through fsync/close of the disk's descriptor on every returning path, and that a successful open either resizes a regular file to numBlocks*BlockSize bytes or proved that size in bytes, with O_CREAT|O_RDWR and without O_TRUNC. Level 'other'.",
          "Durability on hardware and crash recovery are not decided; documented syscall semantics trusted.", "DESIGN.md §4 C11"),
